@@ -906,12 +906,36 @@ def m_vec_extend(it, ctx, a, m, f):
     L(a[0]).extend(L(a[1])); return []
 
 
+def _seq_range(r, n):
+    """(lo, hi) of a range value over a sequence of length n"""
+    r = deref(r)
+    if r == [] or (isinstance(r, Adt) and r.ty == 'RangeFull'):
+        return 0, n
+    if isinstance(r, Adt):
+        if r.ty == 'Range':
+            return deref(r.fields[0]), deref(r.fields[1])
+        if r.ty == 'RangeTo':
+            return 0, deref(r.fields[0])
+        if r.ty == 'RangeFrom':
+            return deref(r.fields[0]), n
+        if r.ty == 'RangeToInclusive':
+            return 0, deref(r.fields[0]) + 1
+        if r.ty == 'RangeInclusive':
+            return deref(r.fields[0]), deref(r.fields[1]) + 1
+    raise Unsupported('range ' + repr(r)[:60])
+
+
 @model(r'^Vec::<.*>::splice::')
 def m_vec_splice(it, ctx, a, m, f):
     v = L(a[0]); rng = deref(a[1]); items = L(a[2])
-    lo, hi = rng.fields[0], rng.fields[1]
+    lo, hi = _seq_range(rng, len(v))
+    if is_sym(lo) or is_sym(hi):
+        raise Unsupported('symbolic splice range')
+    if lo > hi or hi > len(v):
+        raise Panic('splice range out of bounds')
+    removed = v[lo:hi]
     v[lo:hi] = items
-    return Iter([])
+    return Iter(removed)
 
 
 @model(r'^(Vec::<.*>|slice::<impl \[.*\]>)::(is_empty|len)$')
